@@ -135,6 +135,23 @@ def task_setup_atoms(pr, repo):
             return c, None
         run_setup(pr, repo, ex, 'BBCGroup', 'x', b, '%d oxygens' % n_o)
 
+    # a backbone carbonyl group exists whenever its carbon has exactly one bonded oxygen - also when that oxygen is the terminal OXT
+    # of a C-terminus whose O is missing; the reorganisation term then takes ITS interaction atom: there must be one
+    def b_oxt(ctx):
+        nh[0] = 0
+        c = mkatom(repo, 'C', 'C', type='atom', res_name='ALA', terminal=None, res_num=9, chain_id='A')
+        bond(c, mkatom(repo, 'OXT', 'O', terminal='C-', type='atom'))
+        return c, None
+
+    def thunk_oxt(ex, ctx):
+        center, _ = b_oxt(ctx)
+        g = ex.instantiate(repo.cls(GM + 'BBCGroup'), [center], {})
+        g.attrs['parameters'] = params()
+        ex.call_function(repo.cls(GM + 'BBCGroup').find_method('setup_atoms'), [], self_obj=g)
+        ctx.oblige('SA[BBCGroup, only oxygen is the terminal OXT]: the group keeps an interaction atom (backbone_reorganization indexes '
+                   'the first one)', len(g.attrs['interaction_atoms_for_acids']) >= 1 and len(g.attrs['interaction_atoms_for_bases']) >= 1)
+    pr.explore(ex, thunk_oxt, 'setup_atoms BBCGroup OXT only')
+
 
 def task_interactions(pr, repo):
     ex = Executor(repo)
